@@ -99,14 +99,25 @@ Forward(L, kind, known, Unew, m) ==
                     ELSE SolveLin(IminusCA(Md(L.dt * L.QI[m][m]), L.A), rhs)
          IN Forward(L, kind, known, Append(Unew, um), m + 1)
 
-Sweep(L, kind, u0, U, tau) == Forward(L, kind, Known(L, kind, u0, U, tau), <<>>, 1)
+\* kind "rk": Runge-Kutta stage form U_m = u0 + dt sum_{j<=m} a_mj F(U_j) with the Butcher matrix stored in QI
+\* (RungeKutta.update_nodes: no old terms, no tau; implicit solve only where the diagonal entry is non-zero)
+Sweep(L, kind, u0, U, tau) ==
+    IF kind = "rk" THEN Forward(L, "impl", [m \in 1 .. L.M |-> u0], <<>>, 1)
+    ELSE Forward(L, kind, Known(L, kind, u0, U, tau), <<>>, 1)
+\* end value of a Runge-Kutta step: last stage if the last row of the Butcher matrix equals the weights, else u0 + dt sum w F
+EndPointRK(L, u0, U) ==
+    IF L.QI[L.M] = L.w THEN U[L.M]
+    ELSE VAdd(u0, VSum([m \in 1 .. L.M |-> VSc(Md(L.dt * L.w[m]), FT(L, U[m]))], L.n))
 
 SweepDefined(L, kind) ==
-    kind = "expl" \/ \A m \in 1 .. L.M : (kind = "impl" /\ Md(L.dt * L.QI[m][m]) = 0) \/ ~ Singular(IminusCA(Md(L.dt * L.QI[m][m]), L.A))
+    kind = "expl" \/ (kind = "rk" /\ \A m \in 1 .. L.M : Md(L.dt * L.QI[m][m]) = 0 \/ ~ Singular(IminusCA(Md(L.dt * L.QI[m][m]), L.A))) \/ \A m \in 1 .. L.M : (kind = "impl" /\ Md(L.dt * L.QI[m][m]) = 0) \/ ~ Singular(IminusCA(Md(L.dt * L.QI[m][m]), L.A))
 
 \* ---- C02: the algebraic iteration the sweep must realise ------------------------------
 \* (I - dt QD (x) A_impl) Unew - dt QE (x) f_expl(Unew) = u0 + dt (Q - QD) (x) f_impl(U) + dt (Q - QE) (x) f_expl(U) + tau
 PicardHolds(L, kind, u0, U, tau, Unew) ==
+    IF kind = "rk" THEN \A m \in 1 .. L.M :
+            Unew[m] = VAdd(u0, VSum([j \in 1 .. m |-> VSc(Md(L.dt * L.QI[m][j]), FT(L, Unew[j]))], L.n))
+    ELSE
     \A m \in 1 .. L.M :
         LET lhs == CASE kind = "impl" -> VSub(Unew[m], VSum([j \in 1 .. L.M |-> VSc(Md(L.dt * L.QI[m][j]), FT(L, Unew[j]))], L.n))
                      [] kind = "expl" -> VSub(Unew[m], VSum([j \in 1 .. L.M |-> VSc(Md(L.dt * L.QE[m][j]), FT(L, Unew[j]))], L.n))
